@@ -80,7 +80,7 @@ FreshStateDigest == "true|7|1|u,v|5|true"
 HMod(gg) == gg.state /\ gg.hmod
 PreIn(gg, v) == IF HMod(gg) THEN ("pre" :> [n |-> "pre", i |-> <<>>]) @@ v ELSE v
 PostOut(gg, n, out) == IF HMod(gg) /\ gg.post THEN (("q" \o n) :> [n |-> "post", i |-> <<>>]) @@ out ELSE out
-InitialInput == ("in" :> [n |-> "x", i |-> Empty])
+InitialInput(gg) == ("in" :> [n |-> gg.x0, i |-> Empty])   \* x0: "x", or "x<k>" for the k-th of several concurrent runs (C09)
 
 --------------------------------------------------------------------------------
 (* Frames                                                                   *)
@@ -183,7 +183,7 @@ Idle == [g |-> [id |-> ""], fr |-> Empty, top |-> [st |-> "idle", skip |-> FALSE
 BadS(S, reason) == [S EXCEPT !.top.skip = TRUE, !.top.bad = reason]
 SkipS(S) == S.top.skip \/ S.top.st # "run"
 
-OnCase(S, e) == [g |-> e, fr |-> ("" :> NewFrame(e, InitialInput)),
+OnCase(S, e) == [g |-> e, fr |-> ("" :> NewFrame(e, InitialInput(e))),
                  top |-> [st |-> "run", skip |-> FALSE, progress |-> TRUE, bad |-> ""]]
 
 --------------------------------------------------------------------------------
